@@ -77,11 +77,16 @@ def coq_project():
             raise RuntimeError("coq_makefile failed: " + err)
 
 
-def coq_make(timeout=3000):
-    """Full .vo build (incremental); returns (ok, log)."""
+def coq_make(timeout=3000, mods=None):
+    """Full .vo build (incremental) of the whole development, or of the given modules and what they depend on.
+
+    Every coqc runs under a shell timeout, so that one diverging file cannot stall the build."""
     with Lock("coq"):
         coq_project()
-        rc, out, err, dt = run(["make", "-k", "-j16"], cwd=COQ, timeout=timeout)
+        cmd = ["make", "-k", "-j16", "COQC=timeout 1200 coqc"]
+        if mods:
+            cmd += ["theories/%s.vo" % m for m in mods]
+        rc, out, err, dt = run(cmd, cwd=COQ, timeout=timeout)
     return rc == 0, out + err, dt
 
 
